@@ -11,4 +11,4 @@ def check(run, replay=None):
                 "env/info/storage, Ok and Err outcomes; non-trivial = distinct (program, route, message, outcome)")
     # (the L2 run observes the context components through the real conversions whether or not the translated tie holds)
     return msgprops.check(run, "C02", "Props/C02", THEOREMS, {"c02": True}, replay,
-                          translated=("Props/C02T", ["c02_translated_ctx_conversions", "c02_translated_dispatch_arm", "c02_translated_binder_is_argument"]))
+                          translated=("Props/C02T", ["c02_translated_ctx_conversions", "c02_translated_dispatch_arm", "c02_translated_binder_is_argument", "c02_translated_one_arm_per_variant"]))
